@@ -199,6 +199,45 @@ def run_job(job):
                                  "what": "%s: outputs differing from baseline: %s; baseline %s; got %s" % (desc, [names[i] for i in diff if i < len(names)], str(base[diff[0]])[:120] if diff else "", str(got[diff[0]])[:120] if diff else "")})
                 if len(samples) < 1 and got == base and sum(1 for c in a if c) >= 3:
                     samples.append(dict(desc, identical_to_baseline=True, compared_values=len(base)))
+        # restore volume: the worlds above replay a few tapes under many reload assignments, so they see few DISTINCT states.
+        # Here every iteration has its own tape: both in-flight login states are saved natively, restored, and the run is
+        # completed with the restored copies next to an uninterrupted twin on the same tape
+        bx = bytes.fromhex
+        nvol = max(100, min(600, int(4000 / okv.suite_cost(su)))) * (1 if tier == "quick" else 5)
+        rng = s.rng("v", proto.H("c13vol", su, job["seed"]))
+        s.cmd("setup_new", rng=rng, out="VS")
+        reg = proto.register(s, rng, "VS", b"volume-pw", b"vol", wire=False, tag="vg")
+        if not reg.ok:
+            viol.append({"sig": "C13 control: registration failed", "what": "%s: %s" % (su, reg.first_failure())})
+            nvol = 0
+        for i in range(nvol):
+            outs = []
+            for twin in ("restored", "uninterrupted"):
+                rng = s.rng("v", proto.H("c13vol", su, job["seed"], i))
+                a = s.cmd("clogin_start", rng=rng, pw=b"volume-pw", out_state="v.cl", out_msg="v.cq")
+                b = s.cmd("slogin_start", rng=rng, setup="VS", file="vg.file", req="v.cq", cred=b"vol", out_state="v.sl", out_msg="v.cr")
+                evals += 2
+                if a.failed or b.failed:
+                    viol.append({"sig": "C13 control: login start failed", "what": "%s: %s" % (su, [dict(x) for x in (a, b) if x.failed])})
+                    break
+                if twin == "restored":
+                    for kind, h_, st_ in (("clogin", "v.cl", a.state), ("slogin", "v.sl", b.state)):
+                        d = s.de(kind, bx(st_), out=h_)
+                        evals += 1
+                        stats["volume_restores"] = stats.get("volume_restores", 0) + 1
+                        if not d.ok:
+                            viol.append({"sig": "C13 state cannot be reloaded (%s via native)" % kind,
+                                         "what": "%s: %s::deserialize refuses the bytes %s::serialize produced: %s -> %s" % (su, kind, kind, st_, d.get("err") or d.get("panic"))})
+                        elif d.re != st_:
+                            viol.append({"sig": "C13 state changes when reloaded (%s via native)" % kind, "what": "%s: %s -> %s" % (su, st_, d.re)})
+                c = s.cmd("clogin_finish", state="v.cl", pw=b"volume-pw", resp="v.cr", out="v.cf")
+                e = s.cmd("slogin_finish", state="v.sl", fin="v.cf") if c.ok else c
+                evals += 2
+                outs.append((a.msg, b.msg, c.get("msg"), c.get("session_key"), c.get("export_key"), e.get("session_key"), c.get("err"), e.get("err")))
+            if len(outs) == 2 and outs[0] != outs[1]:
+                viol.append({"sig": "C13 run differs from the uninterrupted baseline (restore volume)",
+                             "what": "%s tape %d: restored %s uninterrupted %s" % (su, i, str(outs[0])[:300], str(outs[1])[:300])})
+            seen += 1
     stats["suites"] = {su: stats["assignments"]}
     return {"evals": evals, "nontrivial": seen, "samples": samples, "violations": viol, "inconclusive": [], "stats": stats}
 
@@ -208,6 +247,8 @@ def floors(tier, stats, results):
     missing = [x for x in okv.SUITES20 if stats.get("suites", {}).get(x, 0) < 4 * 100]
     if missing:
         out.append("fewer than 100 assignments per world for suites %s" % missing)
+    if stats.get("volume_restores", 0) < 6000:
+        out.append("fewer than 6000 native restores of distinct in-flight states")
     for p in POINTS:
         if stats.get("by_point", {}).get(p, 0) < 20 * 30:
             out.append("persistence point %s under-observed" % p)
